@@ -370,7 +370,7 @@ Proof. intros H1 H2. unfold rdata_eqb. rewrite (rd_digest_ci _ _ H1), (rd_digest
 
 Lemma rd_covers_ci ty a b : rdata_ci a b -> rd_covers ty a = rd_covers ty b.
 Proof.
-  intros H. unfold rd_covers. destruct (ty =? tRRSIG); [|reflexivity].
+  intros H. unfold rd_covers. destruct (is_sigtype ty); [|reflexivity].
   destruct H as [|x y a b Hxy H]; [reflexivity|].
   destruct x; destruct y; cbn [piece_ci] in Hxy; try contradiction; try reflexivity. subst. reflexivity.
 Qed.
